@@ -2,6 +2,7 @@ package dcc2
 
 import (
 	"crypto/sha1"
+	"unicode"
 
 	"golang.org/x/crypto/pbkdf2"
 )
@@ -68,5 +69,34 @@ func H_C01_dcc2_password() {
 	}
 	vCheck(vStrEq(DCC2Hash("Admin", pw, 10240), "$DCC2$10240#Admin#"+string(hx)), "dcc2/from-password")
 	vCheck(vStrEq(DCC2HashWithPassword("Admin", pw, 10240), "$DCC2$10240#Admin#"+string(hx)), "dcc2/with-password")
+	vCover("end")
+}
+
+var c01names = []string{"Administratör", "JOSÉ", "Ζωή", "用户", "user😀", "ǅon"}
+
+func c01lower16(s string) []byte {
+	var cps []rune
+	for _, r := range s {
+		cps = append(cps, unicode.ToLower(r))
+	}
+	return refUTF16LE(cps)
+}
+
+// Non-ASCII user names (concrete samples), symbolic NT hash, fixed round counts.
+func H_C01_dcc2_unicode_names() {
+	var ntHash [16]byte
+	copy(ntHash[:], vBytes("nt", 16))
+	user := c01names[vParam("name")]
+	rounds := vParam("rounds")
+	u16 := c01lower16(user)
+	dcc1 := refMD4(append(append([]byte{}, ntHash[:]...), u16...))
+	key := pbkdf2.Key(dcc1[:], u16, rounds, 16, sha1.New)
+	const digits = "0123456789abcdef"
+	hx := make([]byte, 32)
+	for i := 0; i < 16; i++ {
+		hx[2*i], hx[2*i+1] = digits[key[i]>>4], digits[key[i]&15]
+	}
+	want := "$DCC2$" + refDecimal(uint64(rounds)) + "#" + user + "#" + string(hx)
+	vCheck(vStrEq(DCC2HashWithNTHash(user, ntHash, rounds), want), "dcc2/hashcat-line-for-a-non-ASCII-user")
 	vCover("end")
 }
